@@ -32,3 +32,11 @@ Theorem C08_accepted_no_overlap : forall s,
   (forall fs bl, In (fs, bl) (schema_levels s) -> level_layout_ok (sc_types s) fs bl).
 Proof. exact accepted_no_overlap. Qed.
 Print Assumptions C08_accepted_no_overlap.
+
+From Sbepp Require Import SrcTables SrcTablesProofs.
+
+(* the keyword list the validator consults, regenerated from
+   sbe_schema_cpp_validator.hpp on every run, is the list of the rules model *)
+Theorem C08_source_keyword_list_is_the_modelled_one : stmt_src_keywords.
+Proof. exact src_keywords. Qed.
+Print Assumptions C08_source_keyword_list_is_the_modelled_one.
